@@ -127,3 +127,55 @@ Example C06_block_canonical_instance :
       SSetup 0 6 (Some 2) [(0, 5)]; SAwait 0 3; SLaunch 0 7 6 []; SAwait 0 7]%nat).
 Proof. vm_compute. reflexivity. Qed.
 Print Assumptions C06_block_canonical_instance.
+
+(* ---- repaired defects: the witnesses of the /repo fixes 86c56b5 and add6c27 (found by the audit) -----------------
+   (1) nested launch in front of the setup.  The loop body starts with `scf.if %c { launch(%l0); await }`.  The
+   guard of the loop rule ("a launch between the loop start and the setup") now looks into regions
+   ([has_launch_before]), so the rule bails out.  [C06_nested_unrepaired] is what the pass produced before the fix
+   (previous_ops_of does not recurse): the launch inside the scf.if then observes the configuration of the NEXT
+   iteration; the program is inside SafeAfterLoop (field A is rewritten after the loop), i.e. outside class F4. *)
+Definition C06_nested_probe : prog :=
+  mkProg [0; 1; 2; 3; 4; 5]%nat
+    [SSetup 0 6 None [(0, 1)];
+     SFor 7 2 3 4 [(8, 6, TState 0)] [13]
+       [SIf 5 [] [SLaunch 0 9 8 []; SAwait 0 9] [] [] [];
+        SPure 10 (PId 7); SSetup 0 11 (Some 8) [(0, 10)]; SLaunch 0 12 11 []; SAwait 0 12] [11];
+     SSetup 0 14 (Some 13) [(0, 0)]; SLaunch 0 15 14 []; SAwait 0 15]%nat.
+Definition C06_nested_unrepaired : prog :=
+  mkProg [0; 1; 2; 3; 4; 5]%nat
+    [SSetup 0 6 None [(0, 1)]; SPure 16 (PId 2); SSetup 0 17 (Some 6) [(0, 16)];
+     SFor 7 2 3 4 [(8, 17, TState 0)] [13]
+       [SIf 5 [] [SLaunch 0 9 8 []; SAwait 0 9] [] [] [];
+        SLaunch 0 12 8 []; SAwait 0 12;
+        SPure 18 (PBin BAdd 7 4); SPure 19 (PId 18); SSetup 0 20 (Some 8) [(0, 19)]] [20];
+     SSetup 0 14 (Some 13) [(0, 0)]; SLaunch 0 15 14 []; SAwait 0 15]%nat.
+
+Example C06_nested_launch_guard :
+  loop_overlap C06_nested_probe 11%nat 16%nat = None
+  /\ safe_after_loop C06_nested_probe 11%nat = true
+  /\ wf_scope C06_nested_unrepaired = true
+  /\ trace_sim_b (run (test_oracle 1) C06_nested_probe [10; 113; -3; 0; 1; 1])
+                 (run (test_oracle 1) C06_nested_unrepaired [10; 113; -3; 0; 1; 1]) = false
+  /\ trace_sim_b (run (test_oracle 1) C06_nested_probe [10; 113; -3; 0; 1; 0])
+                 (run (test_oracle 1) C06_nested_unrepaired [10; 113; -3; 0; 1; 0]) = true.
+Proof. repeat (split; [vm_compute; reflexivity|]). vm_compute. reflexivity. Qed.
+Print Assumptions C06_nested_launch_guard.
+
+(* (2) a setup value computed by a side-effect-free scf.if whose region captures %c = a + b, defined between the
+   launch and the setup.  get_scoped_setup_inputs now treats ops with regions as immovable ([closure] returns None
+   on SFor / SIf), so the block rule bails out.  [C06_region_unrepaired] is what the pass produced before the fix:
+   the scf.if sits above the definition of the value its region yields (use before definition). *)
+Definition C06_region_probe : prog :=
+  mkProg [0; 1; 2]%nat
+    [SSetup 0 3 None [(0, 0)]; SLaunch 0 4 3 []; SAwait 0 4; SPure 5 (PBin BAdd 0 1);
+     SIf 2 [(6, TInt)] [] [5] [] [1]; SSetup 0 7 (Some 3) [(0, 6)]; SLaunch 0 8 7 []; SAwait 0 8]%nat.
+Definition C06_region_unrepaired : prog :=
+  mkProg [0; 1; 2]%nat
+    [SSetup 0 3 None [(0, 0)]; SLaunch 0 4 3 []; SIf 2 [(6, TInt)] [] [5] [] [1];
+     SSetup 0 7 (Some 3) [(0, 6)]; SAwait 0 4; SPure 5 (PBin BAdd 0 1); SLaunch 0 8 7 []; SAwait 0 8]%nat.
+
+Example C06_region_op_immovable :
+  block_overlap C06_region_probe 7%nat = None
+  /\ wf_scope C06_region_probe = true /\ wf_scope C06_region_unrepaired = false.
+Proof. repeat (split; [vm_compute; reflexivity|]). vm_compute. reflexivity. Qed.
+Print Assumptions C06_region_op_immovable.
